@@ -1022,3 +1022,183 @@ Proof. vm_compute. reflexivity. Qed.
 Notation g_run fuel q c :=
   (resolve scache sc_get sc_insert_all sort_names_ord (ModeRecursive OnlyV4) 53 (zones_insert [] c3_hz)
            (universe_oracle g_universe []) fuel q (c, tstate_init)).
+
+(* the plan: one glueless host, ns.hoster.net., whose chain is . > net. > hoster.net.; rank 1, all
+   other names rank 0 *)
+Definition g_planned (h : dname) : Prop := h = g_n_ns_hoster.
+Definition g_plan (h : dname) : list uzone * uzone := ([g_net; g_hoster], g_hoster).
+Definition g_rank (h : dname) : nat := if dname_eqb h g_n_ns_hoster then 1%nat else 0%nat.
+
+Lemma g_universe_ns_ok : universe_ns_ok g_universe.
+Proof.
+  split.
+  - intros z r Hz Hr. cbn [g_universe u_zones] in Hz. in_cases Hz; cbn in Hr; in_cases Hr; reflexivity.
+  - intros r Hr Ht. apply u_record_all in Hr. vm_compute in Hr. in_cases Hr; try (vm_compute in Ht; discriminate Ht); eexists; reflexivity.
+Qed.
+
+(* (question, zone, address): a server at the address has the zone as its closest for the name *)
+Definition g_triples : list (question * uzone * N) :=
+  [(g_q, g_root, c3_ip0); (g_q, g_com, c3_ip1); (g_q, g_hosted, g_ip7);
+   (g_qh, g_root, c3_ip0); (g_qh, g_net, g_ip5); (g_qh, g_hoster, g_ip6)].
+
+Lemma g_serves q z a : In (q, z, a) g_triples -> serves_owner g_universe (inl a) z q.
+Proof. intro H. unfold g_triples in H. tup_cases H; eexists; split; vm_compute; reflexivity. Qed.
+
+Lemma g_serve_fits q : (q = g_q \/ q = g_qh) -> serve_fits g_universe q.
+Proof.
+  intros Hq a m H. unfold serve, zones_of_server in H. cbn [g_universe u_servers find fst] in H.
+  repeat match type of H with
+         | context [ip_eqb ?x a] => destruct (ip_eqb x a)
+         end; try discriminate H;
+    destruct Hq as [-> | ->]; inversion H; subst; (split; [apply wf_message_b_sound; vm_compute; reflexivity|]);
+    eexists; (split; [vm_compute; reflexivity|vm_compute; discriminate]).
+Qed.
+
+Lemma g_plain_question q : (q = g_q \/ q = g_qh) -> plain_question g_universe q.
+Proof.
+  intro Hq. split; [|split; [|split; [|split]]].
+  - apply wf_question_b_sound. destruct Hq as [-> | ->]; vm_compute; reflexivity.
+  - destruct Hq as [-> | ->]; discriminate.
+  - destruct Hq as [-> | ->]; discriminate.
+  - intros req E. destruct Hq as [-> | ->]; vm_compute in E; inversion E; subst; vm_compute; discriminate.
+  - apply g_serve_fits, Hq.
+Qed.
+
+(* the nameserver hosts of a zone of a chain lead, by every address, to the zone's server *)
+Lemma g_hosts_ok q z a below : In (q, z, a) g_triples -> hosts_okm g_universe c3_hints false q z below.
+Proof.
+  intros Hcase h (r & Hr & Hn & Hh).
+  assert (Hsrv : lands g_universe false q (inl a) z below) by exact (g_serves q z a Hcase).
+  apply u_record_all in Hr. vm_compute in Hr.
+  unfold g_triples in Hcase. tup_cases Hcase;
+    in_cases Hr; try (vm_compute in Hn; discriminate Hn); try (vm_compute in Hh; discriminate Hh);
+    vm_compute in Hh; inversion Hh; subst h; clear Hh Hn;
+    (split; [apply wf_name_b_sound; vm_compute; reflexivity|]);
+    (split; [intros g Hg Hgn Hgt; apply u_record_all in Hg; vm_compute in Hg; in_cases Hg;
+               try (vm_compute in Hgn; discriminate Hgn); try (destruct Hgt as [Hgt|Hgt]; vm_compute in Hgt; discriminate Hgt);
+               eexists; (split; [left; split; [reflexivity|eexists; split; reflexivity]|exact Hsrv])|]);
+    (split; [intros g Hg Hl Hgt; unfold c3_hints in Hg; in_cases Hg;
+               try (vm_compute in Hl; discriminate Hl); try (destruct Hgt as [Hgt|Hgt]; vm_compute in Hgt; discriminate Hgt);
+               eexists; (split; [left; split; [reflexivity|eexists; split; reflexivity]|exact Hsrv])|]);
+    intros g Hg Hgn Hgt; apply u_record_all in Hg; vm_compute in Hg; in_cases Hg;
+      try (vm_compute in Hgn; discriminate Hgn); vm_compute in Hgt; discriminate Hgt.
+Qed.
+
+(* (question, parent, child, zones below the child, the address of the child's server) *)
+Definition g_links : list (question * uzone * uzone * list uzone * N) :=
+  [(g_q, g_root, g_com, [g_hosted], c3_ip1); (g_q, g_com, g_hosted, [], g_ip7);
+   (g_qh, g_root, g_net, [g_hoster], g_ip5); (g_qh, g_net, g_hoster, [], g_ip6)].
+
+Ltac glue_with tac :=
+  eexists; split; [cbn; tac; left; reflexivity|]; split; [reflexivity|]; split; [left; reflexivity|vm_compute; reflexivity].
+
+Lemma g_wlink q zp zc below a : In (q, zp, zc, below, a) g_links ->
+  wlinkm g_universe c3_hints OnlyV4 false g_planned q zp zc below.
+Proof.
+  intro Hcase. split; [|split; [|split; [|split; [|split]]]].
+  - unfold g_links in Hcase. tup_cases Hcase; cbn; auto 10.
+  - unfold g_links in Hcase. tup_cases Hcase; vm_compute; reflexivity.
+  - unfold g_links in Hcase. tup_cases Hcase; vm_compute; reflexivity.
+  - intros r Hr Hn. unfold g_links in Hcase. tup_cases Hcase; cbn in Hr; in_cases Hr; vm_compute in Hn; discriminate Hn.
+  - intros h' (r & Hr & Hrn & Hh'). unfold g_links in Hcase. tup_cases Hcase; cbn in Hr; in_cases Hr;
+      try (vm_compute in Hrn; discriminate Hrn); vm_compute in Hh'; inversion Hh';
+      first [right; reflexivity | left; glue_with idtac | left; glue_with ltac:(right) | left; glue_with ltac:(right; right)].
+  - apply (g_hosts_ok q zc a). unfold g_links in Hcase. tup_cases Hcase; unfold g_triples; in_solve.
+Qed.
+
+(* (question, the zones of its chain below the root, the zone owning its name) *)
+Definition g_chains : list (question * list uzone * uzone) :=
+  [(g_q, [g_com; g_hosted], g_hosted); (g_qh, [g_net; g_hoster], g_hoster)].
+
+Lemma g_walk q rest zk : In (q, rest, zk) g_chains -> walkm g_universe c3_hints OnlyV4 false g_planned q g_root rest zk.
+Proof.
+  intro Hcase. constructor.
+  - apply wf_name_b_sound. unfold g_chains in Hcase. tup_cases Hcase; vm_compute; reflexivity.
+  - unfold g_chains in Hcase. tup_cases Hcase; (split; [split; [discriminate|reflexivity]|split; discriminate]).
+  - reflexivity.
+  - split; [|split; [|split]].
+    + repeat (apply Forall_cons; [split; [apply wf_name_b_sound; vm_compute; reflexivity|]|]); [| |apply Forall_nil].
+      * left. split; [reflexivity|]. split; [reflexivity|]. eexists. reflexivity.
+      * right. left. split; [reflexivity|]. eexists. reflexivity.
+    + eexists. split; [left; reflexivity|reflexivity].
+    + intros r h Hr Ht Hd. unfold c3_hints in Hr. in_cases Hr; try discriminate Ht. inversion Hd; subst h. split.
+      * exists (c3_rr root_domain RT_NS 3600 (RD_Name c3_n_a)). split; [exists g_root; split; [cbn; auto|cbn; in_solve]|]. split; reflexivity.
+      * eexists. split; [right; left; reflexivity|]. split; [reflexivity|left; reflexivity].
+    + intros r Hr Hl. unfold c3_hints in Hr. unfold g_chains in Hcase. in_cases Hr; tup_cases Hcase; vm_compute in Hl; discriminate Hl.
+  - apply (g_hosts_ok q g_root c3_ip0). unfold g_chains in Hcase. tup_cases Hcase; unfold g_triples; in_solve.
+  - unfold g_chains in Hcase. tup_cases Hcase; cbn [wchainm];
+      repeat (split; [eapply g_wlink; unfold g_links; in_solve|]); reflexivity.
+  - intros r Hr Ht Hin. apply u_record_all in Hr. vm_compute in Hr. in_cases Hr; vm_compute in Ht; discriminate Ht.
+  - intros r Hr Ht Hin. apply u_record_all in Hr. vm_compute in Hr.
+    unfold g_chains in Hcase. tup_cases Hcase; in_cases Hr; try (vm_compute in Ht; discriminate Ht);
+      try (left; reflexivity);
+      try (right; exists g_com; split; [cbn; auto|reflexivity]);
+      try (right; exists g_hosted; split; [cbn; auto|reflexivity]);
+      try (right; exists g_net; split; [cbn; auto|reflexivity]);
+      try (right; exists g_hoster; split; [cbn; auto|reflexivity]);
+      exfalso; vm_compute in Hin; repeat (destruct Hin as [Hin|Hin]; [discriminate Hin|]); exact Hin.
+Qed.
+
+Lemma g_answering q zk : In (q, zk) [(g_q, g_hosted); (g_qh, g_hoster)] -> answering_zone g_universe zk q.
+Proof.
+  intro Hcase. tup_cases Hcase; (split; [repeat split; vm_compute; reflexivity|split; [vm_compute; repeat constructor|split; reflexivity]]).
+Qed.
+
+Lemma g_plain_at : plain_at g_universe g_q g_hosted.
+Proof.
+  constructor.
+  - apply g_answering. cbn; auto.
+  - intros z r Hz Hr Hn. cbn [g_universe u_zones] in Hz. in_cases Hz; cbn in Hr; in_cases Hr; vm_compute in Hn; discriminate Hn.
+  - intros z r Hz Hr Hn. cbn [g_universe u_zones] in Hz. in_cases Hz; cbn in Hr; in_cases Hr;
+      try (vm_compute in Hn; discriminate Hn); cbn; auto 10.
+  - intros r Hr Hn Ht. cbn in Hr. in_cases Hr; try (vm_compute in Hn; discriminate Hn);
+      try (vm_compute in Ht; discriminate Ht); vm_compute; reflexivity.
+  - intros r Hr Ht Hn. apply u_record_all in Hr. vm_compute in Hr. in_cases Hr; vm_compute in Ht; discriminate Ht.
+Qed.
+
+Lemma g_warm_question : warm_questionm g_universe c3_hints OnlyV4 false g_planned g_q g_root [g_com; g_hosted] g_hosted.
+Proof.
+  split; [apply g_walk; unfold g_chains; in_solve|]. split; [exact g_plain_at|].
+  intros (r & Hr & Hh). apply u_record_all in Hr. vm_compute in Hr. in_cases Hr; vm_compute in Hh; discriminate Hh.
+Qed.
+
+(* the plan is sound: ns.hoster.net. A walks down . > net. > hoster.net. (with glue), hoster.net. holds its
+   address, the hosts of that chain (a., ns.net., ns1.hoster.net.) have rank 0 < 1 *)
+Lemma g_plan_ok : forall h, g_planned h -> plan_ok g_universe c3_hints OnlyV4 false g_root g_planned g_plan g_rank h.
+Proof.
+  intros h ->. split; [|split; [|split; [|split; [|split]]]].
+  - intros t [<-|[]]. change (mkq g_n_ns_hoster RT_A RC_IN) with g_qh. cbn [g_plan fst snd].
+    split; [apply g_walk; unfold g_chains; in_solve|]. split; [apply g_answering; cbn; auto|apply g_plain_question; auto].
+  - exists RT_A. split; [left; reflexivity|]. eexists. split; [cbn; right; right; right; left; reflexivity|]. split; reflexivity.
+  - intros r Hr Hn Ht. apply u_record_all in Hr. vm_compute in Hr. in_cases Hr; vm_compute in Ht; discriminate Ht.
+  - intros r Hr Hn. cbn in Hr. in_cases Hr; reflexivity.
+  - intros h' (zi & Hzi & r & Hr & Hn & Hh'). apply u_record_all in Hr. vm_compute in Hr. cbn [g_plan fst] in Hzi.
+    in_cases Hzi; in_cases Hr; try (vm_compute in Hn; discriminate Hn); try (vm_compute in Hh'; discriminate Hh');
+      vm_compute in Hh'; inversion Hh'; vm_compute; lia.
+  - vm_compute. lia.
+Qed.
+
+(* the hypotheses are satisfiable, and what the theorem then says: www.hosted.com. A from the empty
+   cache, in a universe where hosted.com. is served by ns.hoster.net. without glue *)
+Example glueless_example : exists F, forall fuel, (F <= fuel)%nat ->
+  outcomeg scache sc_get 53 g_universe c3_hints OnlyV4 g_root g_planned g_q [g_com; g_hosted] g_hosted sc_empty (g_run fuel g_q sc_empty).
+Proof.
+  exact (glueless_correct sort_names_ord sort_names_ord_perm 53 g_universe c3_hints c3_hz OnlyV4 false g_root g_planned g_plan g_rank
+           g_q [g_com; g_hosted] g_hosted sc_empty g_universe_ns_ok c3_hz_built g_plan_ok g_warm_question
+           (g_plain_question _ (or_introl eq_refl)) (emptym_consistent _ _ _ _ _ _ sc_empty sc_empty_get)).
+Qed.
+
+(* the same run evaluated inside Coq (fuel 20): the root and com. are asked about www.hosted.com.; then
+   the nested resolution asks the root, net. and hoster.net. about ns.hoster.net.; then hosted.com.'s
+   server 10.0.0.8 answers; asked again from the cache left, no exchange *)
+Example glueless_example_eval :
+  let r := g_run 20%nat g_q sc_empty in
+  let r' := g_run 20%nat g_q (fst (snd r)) in
+  fst r = Ok (NonAuthoritative [c3_rr g_n_www_hosted RT_A 300 (RD_A 3221225991)] None)
+  /\ map (fun e => (x_addr e, x_question e)) (ts_log (snd (snd r)))
+     = [((inl c3_ip0, 53), g_q); ((inl c3_ip1, 53), g_q);
+        ((inl c3_ip0, 53), g_qh); ((inl g_ip5, 53), g_qh); ((inl g_ip6, 53), g_qh);
+        ((inl g_ip7, 53), g_q)]
+  /\ fst r' = fst r /\ ts_log (snd (snd r')) = []
+  /\ consistentb g_universe = true.
+Proof. vm_compute. repeat split. Qed.
